@@ -1,0 +1,50 @@
+//! Verification hooks for property C06 (add-only, compiled only with `--cfg samlang_verif`):
+//! plain re-exports of the private decision kernels of `type_system.rs`, so that a harness can
+//! run them on arbitrary types. Nothing changes when the cfg is off.
+use super::type_::{Type, TypeParameterSignature};
+use super::type_system;
+use samlang_errors::ErrorSet;
+use samlang_heap::PStr;
+use std::{collections::HashMap, sync::Arc};
+
+/// `type_system::assignability_check(lower, upper).is_none()`
+pub fn assignable(lower: &Type, upper: &Type) -> bool {
+  type_system::assignability_check(lower, upper).is_none()
+}
+
+/// `type_system::type_meet(lower, upper).ok()`
+pub fn type_meet(lower: &Type, upper: &Type) -> Option<Type> {
+  type_system::type_meet(lower, upper).ok()
+}
+
+pub fn contains_placeholder(t: &Type) -> bool {
+  type_system::contains_placeholder(t)
+}
+
+pub fn subst_type(t: &Type, mapping: &HashMap<PStr, Arc<Type>>) -> Arc<Type> {
+  type_system::subst_type(t, mapping)
+}
+
+/// `type_system::solve_multiple_type_constrains` over (concrete, generic) pairs.
+pub fn solve_multiple(
+  constraints: &[(&Type, &Type)],
+  type_parameter_signatures: &Vec<TypeParameterSignature>,
+) -> HashMap<PStr, Arc<Type>> {
+  let cs = constraints
+    .iter()
+    .map(|(c, g)| type_system::TypeConstraint { concrete_type: c, generic_type: g })
+    .collect::<Vec<_>>();
+  type_system::solve_multiple_type_constrains(&cs, type_parameter_signatures)
+}
+
+/// `type_system::solve_type_constraints`: (substitution, solved generic type, error reported?)
+pub fn solve_type_constraints(
+  concrete: &Type,
+  generic: &Type,
+  type_parameter_signatures: &Vec<TypeParameterSignature>,
+) -> (HashMap<PStr, Arc<Type>>, Arc<Type>, bool) {
+  let mut error_set = ErrorSet::new();
+  let r =
+    type_system::solve_type_constraints(concrete, generic, type_parameter_signatures, &mut error_set);
+  (r.solved_substitution, r.solved_generic_type, error_set.has_errors())
+}
